@@ -655,12 +655,18 @@ package forwarder
 //@   requires g != nil && g.link != nil
 //@   modifies *
 //@   serves C10 C15 C07
+//@   loop range(lSeidUrridsMap):
+//@     invariant [batch] len(oids) == queryNum && 0 <= queryNum && queryNum < queryNumOnce && (g.link != nil)
+//@   loop range(urrIds):
+//@     invariant [batch] len(oids) == queryNum && 0 <= queryNum && queryNum < queryNumOnce && (g.link != nil)
+//@   after call MaxNetlinkUsageReportNum:
+//@     assume [A-BATCHMAX] ret0 >= 1
 //@   at call append#1:
 //@     assert [oid]  len(arg1) == 1 && len(arg1[0]) == 2 && arg1[0][0] == seid && arg1[0][1] == uint64(urrId)
 //@   at call GetMultiReportsOID#1:
-//@     assert [batch] arg2 == oids && arg0 == ite(ps, g.psClient, g.client) && len(oids) >= 1
+//@     assert [batch] arg2 == oids && arg0 == ite(ps, g.psClient, g.client) && len(oids) >= 1 && len(oids) <= queryNumOnce
 //@   at call GetMultiReportsOID#2:
-//@     assert [rest]  arg2 == oids && arg0 == ite(ps, g.psClient, g.client) && len(oids) >= 1
+//@     assert [rest]  arg2 == oids && arg0 == ite(ps, g.psClient, g.client) && len(oids) >= 1 && len(oids) < queryNumOnce
 //@   at call append#4:
 //@     assert [conv] len(arg1) == 1 && arg0 == usars[r.SEID] && arg1[0].URRID == r.URRID && arg1[0].QueryUrrRef == r.QueryUrrRef && arg1[0].StartTime == r.StartTime && arg1[0].EndTime == r.EndTime &&
 //@                   arg1[0].VolumMeasure.TotalVolume == r.VolMeasurement.TotalVolume && arg1[0].VolumMeasure.UplinkVolume == r.VolMeasurement.UplinkVolume &&
